@@ -14,6 +14,11 @@ extern size_t cqv_mc_n[4];
 extern unsigned cqv_mc_calls;
 /* ---- ghost: an arbitrary row index (stands for "for all rows") ---- */
 size_t cqv_j;
+/* ---- ghost: set when a call could not make full progress for a reason outside the row stream
+ * (callee error, empty page, unknown type, allocation failure); never cleared by the library ---- */
+_Bool cqv_rb_short;
+/* ---- ghost: non-null rows delivered so far inside one carquet_column_read_batch call ---- */
+int64_t cqv_g_nn;
 
 /* Reachability canaries only need SOME execution through a point, so the vacuity build (and the
  * jobs marked level='bounded' via -DCQV_SMALL) keeps buffer sizes small: cbmc's json trace of a
@@ -49,7 +54,7 @@ size_t cqv_j;
 #define CQV_TL_MAX (1 << 24)   /* FIXED_LEN_BYTE_ARRAY length bound also used by batch_reader.c */
 #endif
 #ifndef CQV_NP_MAXV
-#define CQV_NP_MAXV ((int64_t)INT32_MAX)   /* requests above INT32_MAX: separate job (truncation) */
+#define CQV_NP_MAXV ((int64_t)CQV_MAXBUF)   /* any request whose buffer can exist (the int32 truncation is repaired) */
 #endif
 #ifndef CQV_PAGE_MAX
 #define CQV_PAGE_MAX (1 << 30)   /* compressed page size; INT32_MAX: separate job */
@@ -80,17 +85,35 @@ size_t cqv_j;
 #define CQV_FRESHPAGE (!__CPROVER_old(reader->page_loaded) || __CPROVER_old(reader->page_values_read) >= __CPROVER_old(reader->page_num_values))
 #define CQV_START ((int64_t)(CQV_FRESHPAGE ? 0 : __CPROVER_old(reader->page_values_read)))
 
-/* C02, dense delivery across calls (necessary condition, ghost witness row cqv_j): if a row before
- * `start` is null, the value source lies strictly before start*value_size.  Checked by the
- * jobs c02_next_page_dense_* (-DCQV_CHECK_DENSE); the other next_page jobs carry the rest. */
-#ifdef CQV_CHECK_DENSE
+/* C02, dense delivery: the values of a call are the dense slice that starts at the number of
+ * non-null rows before `start`.
+ *  - unbounded jobs: necessary conditions with the ghost witness row cqv_j (a null row before `start`
+ *    => source strictly before start*value_size; see also the clauses in the overlay);
+ *  - jobs with -DCQV_SMALL (page <= 8 rows): the exact statement with the spec counting function
+ *    CQV_NN unrolled over the page. */
 #define CQV_DENSE_WITNESS_POST \
-  ((__CPROVER_return_value == CARQUET_OK && __CPROVER_old(cqv_mc_calls) == 0 && reader->max_def_level > 0 && *values_read > 0 && \
-    cqv_j < (size_t)CQV_START && reader->decoded_def_levels[cqv_j] < reader->max_def_level) ==> \
+  ((__CPROVER_return_value == CARQUET_OK && __CPROVER_old(cqv_mc_calls) == 0 && reader->max_def_level > 0 && \
+    cqv_j < (size_t)CQV_START && reader->decoded_def_levels[cqv_j] != reader->max_def_level) ==> \
    (__CPROVER_POINTER_OFFSET(cqv_mc_src[0]) >= 0 && \
     (size_t)__CPROVER_POINTER_OFFSET(cqv_mc_src[0]) + CQV_VSZ(reader) <= (size_t)CQV_START * CQV_VSZ(reader)))
+/* spec: number of k in [lo,hi) with d[k] == m, for hi <= 8 */
+#define CQV_NNK(d, lo, hi, m, k) ((size_t)((int64_t)(k) >= (int64_t)(lo) && (int64_t)(k) < (int64_t)(hi) && (d)[k] == (m)))
+#define CQV_NN(d, lo, hi, m) \
+  (CQV_NNK(d, lo, hi, m, 0) + CQV_NNK(d, lo, hi, m, 1) + CQV_NNK(d, lo, hi, m, 2) + CQV_NNK(d, lo, hi, m, 3) + \
+   CQV_NNK(d, lo, hi, m, 4) + CQV_NNK(d, lo, hi, m, 5) + CQV_NNK(d, lo, hi, m, 6) + CQV_NNK(d, lo, hi, m, 7))
+#ifdef CQV_SMALL
+#define CQV_INV_DENSE(d, lo, hi, cnt, m) ((cnt) == CQV_NN(d, lo, hi, m))
+#define CQV_DENSE_EXACT_POST \
+  ((__CPROVER_return_value == CARQUET_OK && reader->max_def_level > 0) ==> \
+   (reader->last_read_non_null == (int64_t)CQV_NN(reader->decoded_def_levels, CQV_START, CQV_START + *values_read, reader->max_def_level) && \
+    (__CPROVER_old(cqv_mc_calls) != 0 || \
+     cqv_mc_src[0] == reader->decoded_values + CQV_NN(reader->decoded_def_levels, 0, CQV_START, reader->max_def_level) * CQV_VSZ(reader))))
 #else
-#define CQV_DENSE_WITNESS_POST 1
+/* ghost witness form: a non-counted row in [lo,hi) => cnt < hi-lo; a counted row in [lo,hi) => cnt >= 1 */
+#define CQV_INV_DENSE(d, lo, hi, cnt, m) \
+  ((!(cqv_j >= (size_t)(lo) && cqv_j < (size_t)(hi) && (d)[cqv_j] != (m)) || (cnt) + 1 <= (size_t)((hi) - (lo))) && \
+   (!(cqv_j >= (size_t)(lo) && cqv_j < (size_t)(hi) && (d)[cqv_j] == (m)) || (cnt) >= 1))
+#define CQV_DENSE_EXACT_POST 1
 #endif
 
 #include "src/reader/page_reader.c"
@@ -166,6 +189,7 @@ void h_read_batch(void) {
   void *values = malloc(cnt * vs);
   int16_t *def = malloc(cnt * sizeof(int16_t));
   int16_t *rep = malloc(cnt * sizeof(int16_t));
+  cqv_rb_short = 0;
   int64_t got = carquet_column_read_batch(r, values, max_values, def, rep);
   CQV_CANARY("read_batch returns");
   if (got > 0) CQV_CANARY("read_batch can deliver rows");
@@ -177,6 +201,7 @@ void h_read_batch(void) {
 void h_skip(void) {
   carquet_column_reader_t *r = mk_reader();
   int64_t n = nondet_i64();
+  cqv_rb_short = 0;
   int64_t got = carquet_column_skip(r, n);
   CQV_CANARY("skip returns");
   if (got > 0) CQV_CANARY("skip can skip rows");
